@@ -441,7 +441,18 @@ def oracleBind (c : CaseIn) (chunks : List Bytes) (rkv : KV) : Option String :=
           | none => "<bad-t>")
         | none => "<bad-t>")
     | none => "<no-t>"
-  (chk "xx" gotX).orElse fun _ => (chk "xn" (",".intercalate notes)).orElse fun _ =>
+  -- a portal executed again (without a new Bind) hands the statement function the same parameters again
+  let xevs := evs.filter (·.startsWith "X:")
+  let again : Option String := (xevs.drop 1).findSome? fun e =>
+    (chk "xx" (((e.splitOn ":").getLast?).getD "")).map (· ++ ":on-a-repeated-Execute")
+  let nx := xevs.length
+  let wantNotes : Option String := (want "xn").map fun w =>
+    if w.isEmpty then w else ",".intercalate (List.replicate (max nx 1) w)
+  let chkNotes : Option String := match wantNotes with
+    | none => none
+    | some w => if ",".intercalate notes = w then none
+                else some ("C08:xn:got=" ++ ",".intercalate notes ++ ":want=" ++ w)
+  (chk "xx" gotX).orElse fun _ => again.orElse fun _ => chkNotes.orElse fun _ =>
   (chk "xtf" tf).orElse fun _ => (chk "xd" dr).orElse fun _ => chk "xt" pd
 
 /-- C04 oracle on the implementation's run: the connection is released once the client has hung
@@ -842,6 +853,16 @@ def oracleMulti (c : CaseIn) (rkv : KV) : Option String :=
   if get rkv "umap" ≠ "same" then some "C12:user-supplied-parameter-map-modified"
   else if get rkv "retain" ≠ "ok" then some ("C18:retained-data-" ++ get rkv "retain")
   else if (get rkv "solo").startsWith "diff" then
+    -- with an authentication strategy every connection's verdict must be its own (C01): name that
+    -- first when it is what differs
+    let outs := (get rkv "out").splitOn "/"
+    let ends := (get rkv "end").splitOn "/"
+    let c01 : Option String :=
+      if c.cfg.auth then
+        (ins.zip (outs.zip (evs.zip ends))).findSome? fun (hx, o, ev, en) =>
+          oracleAuth { c with inp := (unhex hx).getD [] } (implChunks o) [("ev", ev), ("end", en)]
+      else none
+    c01.orElse fun _ =>
     some ("C15:connection-differs-from-the-same-traffic-served-alone:" ++ get rkv "solo")
   else (ins.zip evs).findSome? fun (hx, ev) =>
     let inp := (unhex hx).getD []
@@ -883,7 +904,20 @@ def oracleClose (c : CaseIn) (rkv : KV) : Option String :=
     else some ("C16:" ++ v)
   | none => some "C16:no-verdict"
 
-def oracle (c : CaseIn) (chunks : List Bytes) (rkv : KV) : Option String :=
+/-- whatever the campaign: the result writer handed to a statement function is open - the first
+    operation a freshly invoked statement function (`X:` event) performs on it never fails with
+    "closed writer" (Execute: DataRows then CommandComplete, C05/C06) -/
+def oracleFreshWriter (rkv : KV) : Option String :=
+  let evs := ((get rkv "ev").splitOn ";").map fun e => match e.splitOn "#" with | [] => e | x :: _ => x
+  let rec go : List String → Option String
+    | a :: b :: r =>
+      if a.startsWith "X:" ∧ (b.drop 1).toString.startsWith "-L636c6f73656420777269746572" then
+        some "C06:statement-function-was-handed-a-closed-writer"
+      else go (b :: r)
+    | _ => none
+  go evs
+
+def oracleCamp (c : CaseIn) (chunks : List Bytes) (rkv : KV) : Option String :=
   if c.camp = "errors" then oracleErrors c chunks
   else if c.camp = "params" then oracleParams c rkv
   else if c.camp = "paramsd" then oracleParamsDescribe c chunks
@@ -904,6 +938,10 @@ def oracle (c : CaseIn) (chunks : List Bytes) (rkv : KV) : Option String :=
   else if c.camp = "startup" then (oracleStartup c chunks rkv).orElse fun _ => oracleExpect c chunks rkv
   else if c.camp = "lifecycle" then (oracleLifecycle c chunks rkv).orElse fun _ => oracleExpect c chunks rkv
   else oracleExpect c chunks rkv
+
+def oracle (c : CaseIn) (chunks : List Bytes) (rkv : KV) : Option String :=
+  (oracleCamp c chunks rkv).orElse fun _ =>
+    if (get c.kv "conns").isEmpty ∧ (get c.kv "direct").isEmpty then oracleFreshWriter rkv else none
 
 def processLine (line : String) : String :=
   match line.splitOn " || " with
